@@ -65,11 +65,12 @@ class Bound:
 
 
 class Class:
-    __slots__ = ("row", "name", "supers", "methods", "statics", "unit")
+    __slots__ = ("row", "name", "supers", "methods", "statics", "unit", "static_names")
 
     def __init__(self, row, name, unit):
         self.row, self.name, self.unit = row, name, unit
         self.supers, self.methods, self.statics = [], {}, {}
+        self.static_names = set()      # declared static fields (Java: readable / writable by their bare name inside the class)
 
     def mro(self):
         out, todo = [], [self]
@@ -337,6 +338,12 @@ class VM:
         s = self.find_scope(scope, name)
         if s is None:
             owner = frame.cls if isinstance(frame.cls, Class) else (frame.this.cls if isinstance(frame.this, Obj) else None)
+            if owner is not None and self.lang == "java":
+                for c in owner.mro():
+                    if name in c.statics:
+                        return c.statics[name]
+                    if name in c.static_names:
+                        raise VMError(f"read of unassigned static field {name!r} at stmt {stmt.get('stmt_id')}")
             if owner is not None:
                 m = owner.find(name)
                 if m is not None:
@@ -357,6 +364,13 @@ class VM:
         if not isinstance(name, str) or not name:
             raise VMError(f"write to bad target {name!r}")
         s = self.find_scope(scope, name)
+        if s is None and self.lang == "java":
+            owner = frame.cls if isinstance(frame.cls, Class) else (frame.this.cls if isinstance(frame.this, Obj) else None)
+            if owner is not None:
+                for c in owner.mro():
+                    if name in c.statics or name in c.static_names:
+                        c.statics[name] = value       # a static field written by its bare name
+                        return
         if s is None:
             s = frame.root
             if not name.startswith("%") and name != "_":
@@ -1363,6 +1377,11 @@ class VM:
                 for r in unit.blocks.get(_int(mb), []):
                     if r.get("operation") == "method_decl":
                         cls.methods[r.get("name")] = Func(r, scope, unit, owner=cls)
+        fb = row.get("fields")
+        if fb is not None:
+            for r in unit.blocks.get(_int(fb), []):
+                if r.get("operation") == "variable_decl" and "static" in str(r.get("attrs") or ""):
+                    cls.static_names.add(r.get("name"))
         for col in ("static_init",):
             sb = row.get(col)
             if sb is not None:
